@@ -13,7 +13,7 @@ EXTRA_MODULES = ['PyhmsVerif.Props.EngineDE', 'PyhmsVerif.Props.EngineSEA', 'Pyh
 LEVEL = 'proof'
 LEVEL_TEXT = 'Theorem: in every state reachable in the tree model every objective invocation lies in its level box (all configs, engines, seeds, event sequences); kernel theorems: apply_bounds result in box for every input and rounding function, rejection loop returns only in-box points. Tie: trace refinement (the model rejects an out-of-box invocation at that event) + bit-exact apply_bounds correspondence (C17) + direct monitor of all invocations, stored genomes and seeds. NEW: C01_stored_in_box — in every reachable state every stored individual that was obtained from the objective lies inside the box of its deme level (it is backed by a logged invocation, C02_stored_is_objective_value, and every logged invocation is in the box, C01_run); the only other stored individuals are sentinel carriers of refused requests and a local deme starting point (its seed). ENGINE LEVEL (Model/Engine.lean, Props/EngineDE.lean): one whole generation of DE.run / SHADE.run is in the model, deterministic given the generator draws (donor arithmetic in binary64, reflect repair, crossover mask incl. the row-zeroing quirk, fitness carry-over, which rows are evaluated, replacement), and is diffed bit-exactly against the real engines with recorded draws: deGen_trials_inBox / shadeGen_trials_inBox — parents inside the box imply every trial genome inside the box, for all draws, scaling factors, crossover probabilities, archives and rounding functions (no EnvBox assumption for DE / SHADE). SEA FAMILY (Engine.seaOffspring, Props/EngineSEA.lean): one pass of the variational pipeline (tournament = first best contestant, arithmetic crossover in binary64, Gaussian mutation with toroidal repair or uniform mutation, loss of fitness on changed rows, evaluation in row order) is in the model and diffed bit-exactly against BaseSEA.run with recorded draws: seaOffspring_inBox — for SEA / SEAWithCrossover / SEAWithAdaptiveMutation every offspring genome lies inside the box whatever the crossover produced and whatever noise was drawn (GAStyleSEA keeps crossover results and uniform draws unrepaired: EnvBox, monitored). LHS / SOBOL SCALING (Props/C01Affine.lean): affine_inBox — fl(lo + fl(u*fl(hi-lo))) lies in [lo, hi] for every rounding function that is monotone, exact on 0 and idempotent, every representable box and every unit sample whose product with a rounded-up range does not round back up to the range (the one binary64-specific fact, not proved for F64.rnd: validated by the bit-exact differential of LHSDeme.run / SobolDeme.run with adversarial samples 1-2^-53, 1-2^-52, ... on every run).'
 LEVEL_NOTE = 'Trusted: Lean kernel + standard axioms; the hand-written tree model (Tree.step) is tied to DemeTree.run by trace refinement on sampled runs (every run is re-executed by the model, dumps and sprout stages diffed); numerical engines (NumPy RNG, cma, scipy), objective values and user-defined stop-condition verdicts are environment; monitors trusted as failing-input search. EnvBox: points proposed by cma.ask, L-BFGS-B and np.random.uniform / qmc samplers are assumed in the box and monitored on every traced run.'
-TECHNIQUE = "trace refinement against the Lean tree model (Tree.step re-executes real runs) + direct monitors"
+TECHNIQUE = "Lean 4 theorems (inductive invariants of the tree machine Tree.step, proved for all configurations and event sequences) tied to the code by trace refinement (Tree.step re-executes real runs; engine generations replayed bit-exactly by the engine model) + direct monitors as failing-input search"
 RULE = "case = one traced run of a random configuration (1-3 levels, engine per level from the full list, every shipped GSC/LSC kind plus user-defined ones, both stock sprout mechanisms and user-composed chains, hibernation on/off, both directions, decimal boxes, optional cutoff/precision/stats wrappers, shared or per-level problems); non-trivial = run with >= 2 demes and >= 2 metaepochs; distinct by configuration hash"
 ASSUMPTIONS = ["objective is deterministic and never returns NaN", "runs are capped at 12 metaepochs by a user-level composite stop condition"]
 FORCE = None
